@@ -20,7 +20,7 @@ ASSUMPTIONS = ['splrep/splev(k=3,s=0) = exact rational not-a-knot cubic spline (
 REQUIRED_CLASSES = ['extrema:two-peaks', 'extrema:tie-plateau', 'pad:repadded', 'env:returned', 'env:none', 'parab:refined']
 EXPECTED_LABELS = ['extrema-exact', 'troughs-exact', 'abs-peaks-exact', 'parabolic-vertex', 'padding-rule', 'padding-never-raises',
                    'envelope-length', 'envelope-on-integer-grid', 'envelope-through-extrema', 'envelope-never-raises']
-BUDGET_S = {'quick': 170, 'thorough': 1200}
+BUDGET_S = {'quick': 170, 'thorough': 900}
 OPTS = {'quick': {'sample_every': 11}, 'thorough': {'sample_every': 11}}
 
 
